@@ -78,6 +78,9 @@ def special_grammars():
     # characters that the source generator must carry verbatim into the generated regex: a literal TAB, a non-ASCII letter
     out.append(('tab-in-pattern', grammar(rule('s', seq(pat(['a'], 1, False), pat(['\t'], 1, True), pat(['b'], 1, False))))))
     out.append(('tab-class', grammar(rule('s', seq(call('A'), star(call('A')))), rule('A', seq(pat(['a', 'b'], 1, True), pat(['\t', ' '], 0, True))))))
+    # a start rule whose name is a Python reserved word (generated methods are named class_, import_ ...)
+    out.append(('kwstart:class', grammar(rule('class', seq(a, call('def'))), rule('def', opt(b)))))
+    out.append(('kwstart:import', grammar(rule('import', star(alt(a, b))))))
     out.append(('isname', grammar(rule('s', star(call('y'))), rule('y', pat(['a', 'b'], 1, True), isname=True), keywords=['ab', 'b'])))
     return out
 
@@ -124,7 +127,8 @@ def run(tier):
             cfg = dict(cfgkw)
             if g.get('keywords'):
                 cfg['keywords'] = g['keywords']
-            items.append({'g': g, 'texts': texts, 'label': f'{kind}/{sname}', 'cfg': cfg, 'settings': settings, 'kind': kind})
+            items.append({'g': g, 'texts': texts, 'label': f'{kind}/{sname}', 'cfg': cfg, 'settings': settings, 'kind': kind,
+                          'start': kind.split(':')[1] if kind.startswith('kwstart:') else 's'})
     agree = {'n': 0, 'bad': 0}
 
     def classify(it, text, so, ir, why):
@@ -138,8 +142,9 @@ def run(tier):
     from ..absgrammar import chars_of, make_cfg
     jobs, cases = Jobs(), []
     for it in items:
-        jobs.add(it['g'], make_cfg(chars_of(it['g'], it['texts']), **it['cfg']), it['texts'])
-        cases.append(default_case(to_ebnf(it['g']), it['texts'], settings=it['settings']))
+        jobs.add(it['g'], make_cfg(chars_of(it['g'], it['texts']), **it['cfg']), it['texts'], start=it.get('start', 's'))
+        cases.append(default_case(to_ebnf(it['g']), it['texts'], settings=it['settings'], start=it.get('start', 's'),
+                                  wrap=it.get('start', 's') == 's'))
     r, spec = run_oracle(jobs)
     ck.add_tlc(r, 'PegSemBatch')
     impl = run_impl(cases, fn=run_both_case, chunk=4)
@@ -153,7 +158,7 @@ def run(tier):
         for backend in ('model', 'gen'):
             mcfg = make_cfg(chars_of(g, it['texts']), **it['cfg'])
             mcfg.update({'backend': backend, 'maxmiss': 0, 'prune': True, 'memoize': True})
-            mjobs.add(g, mcfg, it['texts'])
+            mjobs.add(g, mcfg, it['texts'], start=it.get('start', 's'))
     rm, mach = run_machine(mjobs)
     ck.add_tlc(rm, 'PegMachineMC (model flavour and generated-parser flavour)')
     if rm.violated:
@@ -234,7 +239,8 @@ def run(tier):
         cfg.update({'maxmiss': 100000, 'prune': True, 'memoize': True})
         texts = [''.join(t) for t in it['texts']][::2]
         for backend in ('gen', 'model'):
-            tcases.append({'ebnf': to_ebnf(it['g']), 'g': it['g'], 'cfg': cfg, 'texts': texts, 'settings': it['settings'], 'backend': backend})
+            tcases.append({'ebnf': to_ebnf(it['g']), 'g': it['g'], 'cfg': cfg, 'texts': texts, 'settings': it['settings'], 'backend': backend,
+                           'start': it.get('start', 's')})
     trace_validate(ck, tcases, label='C02 generated and model executions')
     ck.cov['distinct_nontrivial'] = len(seen)
     ck.cov['rule'] = (f'{len(gs)} grammars (every expression with <=1 operator node over 9 leaves, a slice of those with 2, seeded random '
